@@ -35,6 +35,8 @@ def handle (inp impl : Json) : CaseResult :=
   let expected := watchOuts.map (fun o => match o with
     | .waiter id => outcomeStr ((fin.delivered.find? (fun d => d.1 = id)).map (·.2))
     | .refused => "closed"
+    | .lateCancelled => "cancelled"
+    | .unknownTx => "unknown-tx"
     | .none => "none")
   let pend := ((fin.pending.map (·.1)).eraseDups.toArray.qsort (· < ·)).toList
   let m := mkObj [("waiters", Json.arr (expected.map (fun e => mkObj [("outcome", (e : Json))])).toArray),
@@ -52,6 +54,9 @@ def handle (inp impl : Json) : CaseResult :=
     else if o == "cancelled" then
       steps.any (fun s => jstr s "t" == "reply" && jnat s "tx" == tx && jstr s "ans" == "notfound" && jnat s "nonce" < jnat s "c")
     else if o == "closed" then steps.any (fun s => jstr s "t" == "beginShutdown")
+    else if o == "unknown-tx" then
+      -- "tx not found" only for a transaction whose receipt the monitor has delivered
+      steps.any (fun s => jstr s "t" == "reply" && jnat s "tx" == tx && (jstr s "ans").startsWith "receipt-" && jnat s "nonce" < jnat s "c")
     else o == "none")
   let outcomesAsModel := ws.length == expected.length &&
     (ws.zip expected).all (fun p => jstr p.1 "outcome" == p.2)
